@@ -8,15 +8,18 @@ switch on a value whose provenance has no decision yet simply forks.
 """
 from .prov import (
     mk_field, mk_vfield, mk_phi, ckey, call_fn, subterms, term_str,
-    IDENT0, UNWRAP_OK, UNWRAP_SOME, CLONE, TAKE, WRAP, MAPERR, RESOK, UNWRAP_OR, BOXLIKE, LOCKS,
+    IDENT0, UNWRAP_OK, UNWRAP_SOME, CLONE, TAKE, WRAP, MAPERR, RESOK, UNWRAP_OR, BOXLIKE, LOCKS, MAPOK, TRYBRANCH, FROMRESIDUAL, mk_trybranch,
 )
 from .program import Site
 
 def norm_key(t):
     """decision keys: map_err does not change the Ok/Err discriminant"""
-    if t[0] == "discr" and t[1][0] == "maperr":
-        return ("discr", t[1][1])
+    while t[0] == "discr" and t[1][0] in ("maperr", "mapok"):
+        t = ("discr", t[1][1])
     return t
+
+
+TRY_LABELS = {"Continue": "Ok", "Break": "Err"}
 
 
 STD_VARIANTS = {
@@ -204,8 +207,14 @@ class PathEnum:
             a0 = args[0]
             if ck in LOCKS:
                 return ("lockres", a0)
+            if ck in TRYBRANCH:
+                return mk_trybranch(a0)
+            if ck in FROMRESIDUAL:
+                return a0
             if ck in MAPERR and len(args) == 2:
                 return ("maperr", a0, args[1])
+            if ck in MAPOK and len(args) == 2 and ck.startswith("std::result"):
+                return ("mapok", a0, args[1])
             if ck in RESOK:
                 return ("resok", a0)
             if ck in UNWRAP_OR and len(args) == 2:
